@@ -6,7 +6,7 @@ from . import token_contracts as tc  # noqa: F401
 PROP = "C09"
 LEVEL = 'proof'
 EXPLANATION = ("Deductive: DefaultApplicationConfig.create_io is verified against a post stated over the SET of option tokens: quiet, verbosity level, interaction and decoration of both outputs are functions of membership of the switches in the tokens before the first '--' (C08 contract), hence independent of placement and inert after '--'; Question.ask on a non-interactive input returns the default without asking, validating or printing; the help/version listeners are verified to print and return status 0 without the handler.  Bounded: all subsets/orders of the seven switches x insertion positions x generated trees x handler behaviours through the real run(): quiet suppresses reports, escape bytes, question defaults, help/version pages.")
-LEVEL_NOTE = ('assumes: RawArgs.has_option_token is membership in the option tokens (proved for ArgvArgs/StringArgs under C08); formatter constructors set force/disable flags as named; streams given explicitly; help and version listeners are bounded only')
+LEVEL_NOTE = ('assumes: RawArgs.has_option_token is membership in the option tokens (proved for ArgvArgs/StringArgs under C08); formatter constructors set force/disable flags as named; streams given explicitly; the quiet / verbosity gate itself is C10 (its targets are re-verified here); end-to-end runs through run() are bounded')
 
 M_DCFG = "clikit.config.default_application_config"
 M_ACFG = "clikit.api.config.application_config"
